@@ -309,6 +309,12 @@ func (c *Ctx) doAlloc(fr *Frame, st *State, a *ssa.Alloc) {
 		r := c.allocRef(st, localName(a))
 		c.storeStruct(st, t, r, zeroVal(t))
 		fr.env[a] = Val{Typ: a.Type(), L: []T{r}}
+		// ghost state of a zero value (e.g. an empty strings.Builder)
+		for _, zf := range c.P.CS.ZeroFacts[t.String()] {
+			e := &Env{c: c, vars: map[string]Val{"x": {Typ: a.Type(), L: []T{r}}}, st: st, at: fmt.Sprintf("%s:%d", zf.File, zf.Line)}
+			c.trust("zero value of " + t.String() + ": " + zf.Text)
+			c.sc.assume(e.evalBool(zf.Expr))
+		}
 	case isArrayType(t):
 		r := c.allocRef(st, localName(a))
 		c.zeroRegion(st, t.Underlying().(*types.Array).Elem(), r)
